@@ -19,8 +19,8 @@ pub static DEF: CheckDef = CheckDef {
     id: "C27",
     variants: &["static-subscription", "dynamic-subscription", "static-stream-query", "dynamic-stream-query", "static-subscription-ext", "dynamic-subscription-ext"],
     run,
-    quick_runs: 10_000,
-    thorough_runs: 400_000,
+    quick_runs: 150_000,
+    thorough_runs: 10_000_000,
     rule: "subscription variants: execute_stream with 1-3 subscription root fields, each fed by a simulated channel with 1-3 events at drawn (often equal) times; every event is an object whose nested resolvers are gated and fail per event at drawn positions; a lagging consumer creates back-pressure; '-ext' variants add 1-2 suspending pass-through extensions. Oracle: per root key the k-th response belongs to the k-th event of that channel; its data and errors must equal the null-propagation model applied to that event's own failures (resolver log attributed by event id) over that event's fault-free baseline; no response may carry an error of another event. stream-query variants: a query/mutation through execute_stream yields exactly one response (equal to execute's) and then ends. Non-trivial = two events were being resolved at the same time and at least one failure fired (or, for stream-query, a fault fired); distinct = distinct event-order hashes.",
     real: &["Schema::execute_stream (static: derive-generated create_field_stream; dynamic: Subscription::collect_streams), select_all fan-in, request-wide error list"],
     stub: &["async runtime (simulator)", "subscription sources (simulated channels)", "event resolvers (harness, gated)", "stream consumer (harness)"],
